@@ -1153,7 +1153,7 @@ def run(ctx):
     ctx.progress('leg A3 done: %d cookie values (law model-checked, each round-tripped)' % nck)
 
     # ---- leg B: seeded random histories beyond the bound --------------------------------------------
-    nrand = ctx.pick(2500, 40000)
+    nrand = ctx.pick(2500, 30000)
     rng = ctx.rng
     for i in range(nrand):
         calls = random_history(rng)
